@@ -36,6 +36,24 @@ def check(ctx):
         ctx.rule(r, t)
     dtm, rem = repo.modules["dataiter.dt"], repo.modules["dataiter.regex"]
     # --------------------------------------------------------- FWD-registry
+    # .str: each attribute NAME is looked up on numpy.strings (the module the statement names), with the vector bound first
+    sinit = repo.functions.get("dataiter.vector.StrProxy.__init__")
+    if sinit is not None:
+        lookups = [c for _, c in calls_in(sinit) if isinstance(c.func, ast.Name) and c.func.id == "getattr" and len(c.args) >= 2]
+        mods = sorted({repo.dotted(sinit, c.args[0]) or norm(c.args[0]) for c in lookups})
+        ok = mods == ["numpy.strings"]
+        ctx.ob("FWD-registry", sinit, f"StrProxy looks its functions up on {mods}", lookups[0] if lookups else sinit.node, ok,
+               "every .str attribute is the numpy.strings function of that name" if ok else
+               f".str attributes are taken from {mods}, not numpy.strings: functions of the same name in a sibling module (numpy.char) "
+               f"differ (its comparison functions reject StringDType arrays), so the proxy no longer returns what the module function returns",
+               clause="the Vector .dt, .re and .str proxies return the same results as the module functions")
+        sattrs = [(n.targets[0].attr, n.value.args[0]) for n in body_nodes(sinit.node) if isinstance(n, ast.Assign)
+                  and isinstance(n.targets[0], ast.Attribute) and isinstance(n.value, ast.Call) and n.value.args
+                  and isinstance(n.value.args[0], ast.Constant)]
+        bad = [(a, v.value) for a, v in sattrs if a != v.value]
+        ctx.ob("FWD-registry", sinit, f"{len(sattrs)} .str attributes named like the function they wrap", sinit.node, not bad and bool(sattrs),
+               "self.<name> = wrap('<name>') throughout" if not bad else f"attributes bound to another function's name: {bad[:4]}",
+               clause="the .str proxies return the same results as the module functions")
     for proxy, mod, bind in (("DtProxy", dtm, "pos"), ("ReProxy", rem, "string")):
         init = repo.fn(f"dataiter.vector.{proxy}.__init__")
         vecp = init.params[1]
